@@ -1,6 +1,174 @@
 import Driver.Util
+import Sqfs.Model.Xfrm
+import Sqfs.Spec.Xfrm
+import Sqfs.Model.XfrmOld
+/-!
+`sqfsmodel c15` — one scenario per line.
+
+* `ostream <bufsz> <absorb> <gran> <thresh> <op>...`   ops: `a:<hex>` append, `z:<n>` append(NULL, n), `f` flush
+    → `ok <sink> <flushes>` | `err <code> <sink>` | `hang`
+* `istream <bufsz> <absorb> <gran> <thresh> <inner hex> <script n,n,..|-> <want:take,..|->`
+    → `ok <bytes taken> <eof 0|1> <inner left> <sizes seen by each get>` | `err <code> <bytes taken> <sizes>` | `hang`
+* `wrap <new|old> <gzip|xz|bzip2|zstd> <c|d> <absorb> <gran> <thresh> <call>...`
+    calls: `<mode 0|1|2>:<room>:<in hex>` → per call `ret,consumed,<out hex>` joined by spaces (`hang` ends the list)
+* `magic <hex>` → `xfrm_compressor_id_from_magic`; `probe <hex>` → `plain` | `wrap <id>` (decision of `tar_open_stream`)
+* `toyenc <hex>` → the one-shot encoding; `toydec <hex>` → `ok <hex>` | `fail`
+* `monitor ...` — the specification predicates evaluated on an implementation's observed behaviour
+-/
 namespace Driver.C15
-/-- stub: the model driver for C15 is not built yet -/
+open Sqfs.Xfrm
+
+def fuel : Nat := 100000000
+
+def parseNat? (s : String) : Option Nat := s.toNat?
+
+def parseNatList (s : String) : Option (List Nat) :=
+  if s = "-" then some [] else (s.splitOn ",").mapM parseNat?
+
+def parsePairs (s : String) : Option (List (Nat × Nat)) :=
+  if s = "-" then some [] else
+  (s.splitOn ",").mapM fun t =>
+    match t.splitOn ":" with
+    | [a, b] => do pure ((← parseNat? a), (← parseNat? b))
+    | _ => none
+
+def parseOOp (t : String) : Option OOp :=
+  if t = "f" then some OOp.flush
+  else match t.splitOn ":" with
+    | ["a", h] => (fromHex h).map OOp.append
+    | ["z", n] => (parseNat? n).map fun k => OOp.append (appendBytes none k)
+    | _ => none
+
+def natsToStr (l : List Nat) : String :=
+  if l.isEmpty then "-" else ",".intercalate (l.map toString)
+
+/-- like `oRun`, but keeps the last good state so that the sink can be shown on failure -/
+def oRunTrace {σ : Type} (C : Codec σ) (bufsz : Nat) : OState σ → List OOp → String
+  | st, [] => s!"ok {toHexTok st.sink} {st.flushed}"
+  | st, op :: ops =>
+    let r := match op with
+      | OOp.append d => oAppend C bufsz fuel st d
+      | OOp.flush => oFlush C bufsz fuel st
+    match r with
+    | none => "hang"
+    | some (.error e) => s!"err {e} {toHexTok st.sink}"
+    | some (.ok st') => oRunTrace C bufsz st' ops
+
+def iRunTrace {σ : Type} (C : Codec σ) (bufsz : Nat) : IState σ → List (Nat × Nat) → Bytes → List Nat → String
+  | st, [], acc, sizes => s!"ok {toHexTok acc} 0 {st.inner.rest.length} {natsToStr sizes.reverse}"
+  | st, (want, take) :: ops, acc, sizes =>
+    match iGet C bufsz fuel st want with
+    | none => "hang"
+    | some (.error e) => s!"err {e} {toHexTok acc} {natsToStr sizes.reverse}"
+    | some (.ok (st1, vis, eof)) =>
+      if eof then s!"ok {toHexTok acc} 1 {st1.inner.rest.length} {natsToStr (vis.length :: sizes).reverse}"
+      else
+        let n := min take vis.length
+        match iAdvance st1 n with
+        | none => "assert"
+        | some st2 => iRunTrace C bufsz st2 ops (acc ++ vis.take n) (vis.length :: sizes)
+
+def resCode : Res → Int
+  | Res.error => - (Sqfs.Consts.xfrmStreamError : Int)
+  | Res.ok => Sqfs.Consts.xfrmStreamOk
+  | Res.streamEnd => Sqfs.Consts.xfrmStreamEnd
+  | Res.bufferFull => Sqfs.Consts.xfrmStreamBufferFull
+
+def parseFlush (s : String) : Option Flush :=
+  match s.toNat? with
+  | some n =>
+    if n = Sqfs.Consts.xfrmFlushNone then some Flush.none
+    else if n = Sqfs.Consts.xfrmFlushSync then some Flush.sync
+    else if n = Sqfs.Consts.xfrmFlushFull then some Flush.full
+    else none
+  | none => none
+
+def parseCall (t : String) : Option (Flush × Nat × Bytes) :=
+  match t.splitOn ":" with
+  | [m, r, h] => do pure ((← parseFlush m), (← parseNat? r), (← fromHex h))
+  | _ => none
+
+/-- run a list of `process_data` calls against a codec given as a partial step function -/
+def wrapTrace {σ : Type} (step : σ → Bytes → Nat → Flush → Option (StepOut σ)) : σ → List (Flush × Nat × Bytes) → List String → String
+  | _, [], acc => " ".intercalate acc.reverse
+  | st, (fl, room, inp) :: cs, acc =>
+    match step st inp room fl with
+    | none => " ".intercalate ("hang" :: acc).reverse
+    | some r => wrapTrace step r.st cs (s!"{resCode r.res},{r.consumed},{toHexTok r.out}" :: acc)
+
+def runWrap (old : Bool) (backend : String) (compress : Bool) (P : Toy.Params) (calls : List (Flush × Nat × Bytes)) : String :=
+  let b? : Option Backend := match backend with
+    | "gzip" => some Backend.gzip | "xz" => some Backend.xz | "bzip2" => some Backend.bzip2 | _ => none
+  match b?, backend with
+  | some b, _ =>
+    if compress then
+      let L := Toy.encLib P b
+      if old then wrapTrace (fun st i r f => Sqfs.Xfrm.Old.wrapProcess L b true st i r f) L.init calls []
+      else wrapTrace (fun st i r f => wrapProcess L b true st i r f) L.init calls []
+    else
+      let L := Toy.decLib P b
+      if old then wrapTrace (fun st i r f => Sqfs.Xfrm.Old.wrapProcess L b false st i r f) L.init calls []
+      else wrapTrace (fun st i r f => wrapProcess L b false st i r f) L.init calls []
+  | none, "zstd" =>
+    if compress then
+      let L := Toy.encZLib P
+      if old then wrapTrace (fun st i r f => Sqfs.Xfrm.Old.zstdProcess L true st i r f) L.init calls []
+      else wrapTrace (fun st i r f => zstdProcess L true st i r f) ⟨L.init, false⟩ calls []
+    else
+      let L := Toy.decZLib P
+      if old then wrapTrace (fun st i r f => Sqfs.Xfrm.Old.zstdProcess L false st i r f) L.init calls []
+      else wrapTrace (fun st i r f => zstdProcess L false st i r f) ⟨L.init, false⟩ calls []
+  | none, _ => "bad-op"
+
+def step (line : String) : String :=
+  match words line with
+  | "ostream" :: b :: a :: g :: t :: ops =>
+    match parseNat? b, parseNat? a, parseNat? g, parseNat? t, ops.mapM parseOOp with
+    | some b, some a, some g, some t, some ops =>
+      let C := Toy.encoder ⟨a, g, t⟩
+      oRunTrace C b (oInit C) ops
+    | _, _, _, _, _ => "bad-op"
+  | ["istream", b, a, g, t, inner, script, client] =>
+    match parseNat? b, parseNat? a, parseNat? g, parseNat? t, fromHex inner, parseNatList script, parsePairs client with
+    | some b, some a, some g, some t, some inner, some script, some client =>
+      let C := Toy.decoder ⟨a, g, t⟩
+      iRunTrace C b (iInit C ⟨inner, script⟩) client [] []
+    | _, _, _, _, _, _, _ => "bad-op"
+  | "wrap" :: v :: backend :: dir :: a :: g :: t :: calls =>
+    match parseNat? a, parseNat? g, parseNat? t, calls.mapM parseCall with
+    | some a, some g, some t, some calls =>
+      if (v = "new" ∨ v = "old") ∧ (dir = "c" ∨ dir = "d") then runWrap (v = "old") backend (dir = "c") ⟨a, g, t⟩ calls
+      else "bad-op"
+    | _, _, _, _ => "bad-op"
+  | ["magic", h] => match fromHex h with
+    | some x => toString (compressorIdFromMagic x)
+    | none => "bad-op"
+  | ["probe", h] => match fromHex h with
+    | some x => match openStreamCodec x with
+      | some id => s!"wrap {id}"
+      | none => "plain"
+    | none => "bad-op"
+  | ["toyenc", h] => match fromHex h with
+    | some x => toHexTok (Toy.encode x)
+    | none => "bad-op"
+  | ["toydec", h] => match fromHex h with
+    | some x => match Toy.decode x with
+      | some y => "ok " ++ toHexTok y
+      | none => "fail"
+    | none => "bad-op"
+  -- specification predicates on observed behaviour
+  | ["monitor", "members", sink, input] =>
+    -- is `sink` a concatenation of toy members that decodes to `input`?
+    match fromHex sink, fromHex input with
+    | some s, some x => if Spec.toyDecodeAll s = some x then "1" else "0"
+    | _, _ => "bad-op"
+  | ["monitor", "prefix", got, want] =>
+    match fromHex got, fromHex want with
+    | some g, some w => if g.isPrefixOf w then "1" else "0"
+    | _, _ => "bad-op"
+  | _ => "bad-op"
+
 def run (_args : List String) : IO Unit := do
-  IO.eprintln "sqfsmodel: model C15 not built yet"
+  lineLoop (← IO.getStdin) (← IO.getStdout) step
+
 end Driver.C15
